@@ -132,6 +132,121 @@ def check_explicit(ctx: Ctx, inp) -> None:
     compare(ctx, log[0], log[1], explicit_ct, inp, command, "explicit")
 
 
+# ---- Python API: the command printed in the failure message ------------------------------------------------------
+
+
+@st.composite
+def api_case(draw):
+    c = draw(explicit_case())
+    if c.get("media_type") == "text/plain" and draw(st.booleans()):
+        c["body"] = draw(st.sampled_from(["first line\nsecond line\n  third line", "a\n\tb", "x\n'quoted'\n", "tab\there\nend"]))
+    via = draw(st.sampled_from(["none", "call_headers", "session_headers", "auth", "call_and_validate_headers"]))
+    return {"case": c, "via": via, "extra": draw(ASCII_HDR.filter(lambda v: v != "")) if via != "none" else None}
+
+
+def extract_command(message: str):
+    """The command as a reader copies it from the report: everything after "Reproduce with:" up to the first blank line;
+    only the first line carries the report's indentation."""
+    marker = "Reproduce with:"
+    if marker not in message:
+        return None
+    lines = message.split(marker, 1)[1].split("\n")
+    while lines and not lines[0].strip():
+        lines.pop(0)
+    out = []
+    for line in lines:
+        if not line.strip() and not _inside_quotes("\n".join(out)):
+            break
+        out.append(line)
+    if not out:
+        return None
+    out[0] = out[0][4:] if out[0].startswith("    ") else out[0].lstrip()
+    return "\n".join(out)
+
+
+def _inside_quotes(text: str) -> bool:
+    """Is the shell still inside a single-quoted string after ``text`` (shlex.quote only produces single quotes and '"'"')?"""
+    inside, i = False, 0
+    while i < len(text):
+        ch = text[i]
+        if inside:
+            inside = ch != "'"
+        elif ch == "'":
+            inside = True
+        elif ch == '"':
+            j = text.find('"', i + 1)
+            if j < 0:
+                return True
+            i = j
+        i += 1
+    return inside
+
+
+def check_api(ctx: Ctx, inp) -> None:
+    import requests
+    from schemathesis.checks import not_a_server_error
+    from schemathesis.core.failures import FailureGroup
+
+    from vfw.harness import loopback
+
+    server = loopback.shared(lambda req, n: loopback.json_reply(500, {"error": "x"}))
+    schema = _schema(server.url)
+    c, via, extra = inp["case"], inp["via"], inp["extra"]
+    op = schema["/u/{id}"][c["method"]]
+    case = op.Case(**{k: v for k, v in c.items() if k != "method"})
+    message = None
+    try:
+        if via == "call_and_validate_headers":
+            try:
+                case.call_and_validate(headers={"X-Extra": extra}, checks=[not_a_server_error])
+            except FailureGroup as exc:
+                message = getattr(exc, "message", None) or str(exc)
+        else:
+            if via == "session_headers":
+                session = requests.Session()
+                session.headers["X-Extra"] = extra
+                response = case.call(session=session)
+            elif via == "call_headers":
+                response = case.call(headers={"X-Extra": extra})
+            elif via == "auth":
+                response = case.call(auth=("user", extra))
+            else:
+                response = case.call()
+            try:
+                case.validate_response(response, checks=[not_a_server_error])
+            except FailureGroup as exc:
+                message = getattr(exc, "message", None) or str(exc)
+    except FailureGroup:
+        raise
+    except Exception:  # noqa: BLE001 - a case requests cannot send is outside the statement
+        ctx.inconclusive_case("case could not be sent by requests")
+        return
+    log = server.snapshot()
+    if len(log) != 1:
+        ctx.inconclusive_case("not exactly one original request")
+        return
+    multiline = isinstance(c.get("body"), str) and "\n" in c["body"] and c.get("media_type") == "text/plain"
+    ctx.case(nontrivial=inp if (via != "none" or multiline) else None, classes=[f"via={via}", "multi-line-command" if multiline else "single-line-command", f"body={c.get('media_type', 'none')}"], sample={"input": inp, "message_tail": (message or "")[-300:]})
+    if message is None:
+        ctx.disagree("api:no-failure-raised-for-a-500", "validate_response did not raise for a 500 response", input=inp)
+        return
+    command = extract_command(message)
+    if command is None:
+        ctx.disagree("api:failure-message-without-a-command", f"{message[-300:]!r}", input=inp)
+        return
+    if "\x00" in command:
+        ctx.inconclusive_case("command cannot be passed to a shell (NUL byte)")
+        return
+    done = run_curl(command)
+    log = server.snapshot()
+    if len(log) != 2:
+        sig = "api:command-sends-no-request" if len(log) < 2 else "api:command-sends-several-requests"
+        ctx.disagree(sig, f"{len(log) - 1} replayed requests (curl exit {done.returncode}, {done.stderr.decode()[:120]!r}); command: {command}"[:600], input=inp, command=command)
+        return
+    explicit_ct = "content-type" in {k.lower() for k, _ in log[0].headers} and c.get("media_type") is not None
+    compare(ctx, log[0], log[1], explicit_ct, inp, command, "api")
+
+
 # ---- engine level --------------------------------------------------------------------------------------------
 
 
@@ -227,9 +342,10 @@ def check_engine(ctx: Ctx, inp) -> None:
 
 SUBS = [
     Sub("explicit", fn=check_explicit, strategy=explicit_case, quick=(16, 150), thorough=(16, 5000), timeout_quick=600, timeout_thorough=3400),
+    Sub("python_api", fn=check_api, strategy=api_case, quick=(16, 100), thorough=(16, 3000), timeout_quick=600, timeout_thorough=3400),
     Sub("engine", collect=True, fn=check_engine, strategy=engine_case, quick=(8, 8), thorough=(16, 200), shrink_quick=False, timeout_quick=600, timeout_thorough=3400),
 ]
-FLOOR = {"explicit": 1500, "engine:runs-with-reported-failures": 5}
+FLOOR = {"explicit": 1500, "python_api": 800, "engine:runs-with-reported-failures": 5}
 
 MANIFEST = {
     "category": "exploration",
